@@ -215,6 +215,13 @@ def s₀ : HState := ⟨[], NsReg.empty, [], [], 0⟩
 
 def effXmd (s : HState) (ex : Exec) : Xmd := if ex.xmdShared then s.sharedXmd else ex.xmdOwn
 
+/-- `cpp_vars.unique_name(name, is_class_var)`: the ONLY use of the name counter.  The model's `View`
+does not contain the counter: results are compared up to renumbering of generated names, which is
+sound as long as distinct (name, index) pairs give distinct identifiers — they do not
+(`leak_counterexample_name_counter`). -/
+def uniqueName (name : String) (idx : Nat) (isClassVar : Bool := false) : String :=
+  (if isClassVar then "_" else "") ++ name ++ toString idx
+
 /-! ### the translator as an uninterpreted function of an explicit view -/
 
 structure Query where
